@@ -246,3 +246,79 @@ for _c in (remove_node, add_node, contract):
 
 # proof tasks are split over several processes (scheduling only)
 remove_node.shards, add_node.shards, contract.shards = 3, 4, 4
+
+
+# ---------------------------------------------------- neighborhood_compress_cost
+# C20 'nothing truncated => nothing charged': if no bond (set of edges) exceeds the cap, the estimated
+# compression cost of a neighbourhood is zero.  The construction of the incidence groups and the cost
+# formula for an over-sized bond are abstracted (any groups, any cost): the statement holds regardless.
+def x_edges_size(engine, st, args, node, kw):
+    """self.edges_size(es): a fixed size per set of edges"""
+    from ..pyvc.calls import domain_of
+
+    es = engine.deref(st, args[-1])
+    sid = engine.keyterm(V(Ty.Set(Key), [domain_of(engine, es)]))
+    key = "uf!bond_size"
+    if key not in engine.specfns:
+        engine.specfns[key] = (z3.Function(key, Ty.IntS, Ty.IntS), [], Int, None)
+    return V(Int, [engine.specfns[key][0](sid)])
+
+
+def x_bond_size(engine, st, args, node, kw):
+    key = "uf!bond_size"
+    if key not in engine.specfns:
+        engine.specfns[key] = (z3.Function(key, Ty.IntS, Ty.IntS), [], Int, None)
+    return V(Int, [engine.specfns[key][0](engine.num(args[-1]))])
+
+
+compress_cost = Contract(
+    target="cotengra.hypergraph:HyperGraph.neighborhood_compress_cost",
+    props=["C20"],
+    self_type=HgT, params={"chi": Ty.Int, "nodes": TupT},
+    requires=["forall(lambda s: bond_size(s) <= chi)"],
+    returns=Ty.Int,
+    externals={"HyperGraph.edges_size": x_edges_size, "bond_size": x_bond_size},
+    hints={"region_edges": Ty.Set(Key), "incidences": Ty.Map(Key, TupT), "C": Ty.Int, "da": Ty.Int, "db": Ty.Int, "outer_edges": TupT,
+           "e": Key, "e_nodes": Key, "node": Key},
+    nloops=None,
+    loops={1: Loop(seen="S", inv=["C == 0"])},
+    raises={"ValueError": "False"},
+    ensures=["result == 0"],
+    assumptions=["the grouping of the neighbourhood's edges by incident nodes and the cost charged for an over-sized bond are abstracted "
+                 "(arbitrary groups, arbitrary cost); a bond's size is a function of its set of edges"],
+)
+compress_cost.abstract_stmts = {
+    "region_edges = {": ["region_edges"],
+    "for e in region_edges:": ["incidences", "e", "e_nodes"],
+    "for node in e_nodes:": ["C", "da", "db", "outer_edges", "node"],
+}
+CONTRACTS.append(compress_cost)
+
+
+def _gen_cost(rng):
+    hg, d = _hg(rng)
+    if len(hg.nodes) < 2:
+        return None
+    i, j = rng.sample(sorted(hg.nodes), 2)
+    # the bonds of the neighbourhood, grouped independently of the code under contract
+    region = {e for n in (i, j) for e in hg.nodes[n]}
+    groups = {}
+    for e in region:
+        if e not in hg.output:
+            groups.setdefault(frozenset(hg.edges[e]), []).append(e)
+    groups.pop(frozenset((i, j)), None)
+
+    def size(es):
+        p = 1
+        for e in es:
+            p *= hg.size_dict[e]
+        return p
+
+    sizes = [size(es) for es in groups.values()] or [1]
+    chi = max(sizes) + rng.choice((0, 0, 1, 5))  # often exactly the largest bond: nothing is truncated there
+    universe = [frozenset(es) for es in groups.values()]
+    return {"self": hg, "args": (chi, (i, j)), "universe": universe, "bind": {"bond_size": lambda s: size(s)},
+            "describe": f"{d} nodes={hg.nodes} sizes={hg.size_dict} output={hg.output} region=({i},{j}) bonds={sorted(sizes)} chi={chi}"}
+
+
+compress_cost.gen = _gen_cost
